@@ -75,6 +75,24 @@ theorem c15_build_fails_iff (T lo n padL padR : Nat) (f : Nat → Option β) :
     exact hall
 
 
+theorem mapCells_cell (f : β → β) (a : Corr β) (t : Nat) : (a.mapCells f).cell? t = (a.cell? t).map f := by
+  unfold Corr.cell?
+  have : (a.mapCells f).content.getD t none = (a.content.getD t none).map (·.map (·.map f)) := by
+    simp [Corr.mapCells, List.getD_eq_getElem?_getD, List.getElem?_map]
+    cases a.content[t]? <;> simp
+  rw [this]
+  cases h : a.content.getD t none with
+  | none => simp
+  | some m =>
+    simp only [Option.map_some]
+    match m with
+    | [[x]] => simp
+    | [] => simp
+    | [] :: _ => simp
+    | [_ :: _ :: _] => simp
+    | (_ :: _) :: _ :: _ => simp
+
+
 section formulas
 variable [Elem β]
 
@@ -171,6 +189,115 @@ theorem c15_second_big_symmetric (a r : Corr β) (hT : 4 ≤ a.T) (h : a.secondD
     cases a.cell? (t - 2) <;> cases a.cell? t <;> cases a.cell? (t + 2) <;> rfl
   · rw [if_neg hc, if_neg (by omega)]
 
+
+/-- C15 (forward derivative): C(t+1) - C(t) on 0 ≤ t ≤ T-2, undefined at T-1 -/
+theorem c15_deriv_forward (a r : Corr β) (hT : 1 ≤ a.T) (h : a.deriv "forward" = .ok r) :
+    r.T = a.T ∧ ∀ t, t < a.T → r.cell? t =
+      (if t + 1 < a.T then
+        (match a.cell? t, a.cell? (t + 1) with
+         | some x, some p => some (p - x)
+         | _, _ => none)
+       else none) := by
+  unfold Corr.deriv at h
+  split at h
+  · cases h
+  simp only [] at h
+  obtain ⟨h1, -, h3⟩ := c15_build_ok _ _ _ _ _ _ _ h
+  refine ⟨by omega, fun t ht => ?_⟩
+  rw [h3]
+  by_cases hc : t + 1 < a.T
+  · rw [if_pos hc, if_pos (by omega)]
+    have : 0 + (t - 0) = t := by omega
+    rw [this]
+    cases a.cell? t <;> cases a.cell? (t + 1) <;> rfl
+  · rw [if_neg hc, if_neg (by omega)]
+
+/-- C15 (backward derivative): C(t) - C(t-1) on 1 ≤ t ≤ T-1, undefined at 0 -/
+theorem c15_deriv_backward (a r : Corr β) (hT : 1 ≤ a.T) (h : a.deriv "backward" = .ok r) :
+    r.T = a.T ∧ ∀ t, t < a.T → r.cell? t =
+      (if 1 ≤ t then
+        (match a.cell? (t - 1), a.cell? t with
+         | some m, some x => some (x - m)
+         | _, _ => none)
+       else none) := by
+  unfold Corr.deriv at h
+  split at h
+  · cases h
+  simp only [] at h
+  obtain ⟨h1, -, h3⟩ := c15_build_ok _ _ _ _ _ _ _ h
+  refine ⟨by omega, fun t ht => ?_⟩
+  rw [h3]
+  by_cases hc : 1 ≤ t
+  · rw [if_pos hc, if_pos (by omega)]
+    have : 1 + (t - 1) = t := by omega
+    rw [this]
+    cases a.cell? (t - 1) <;> cases a.cell? t <;> rfl
+  · rw [if_neg hc, if_neg (by omega)]
+
+/-- C15 (improved second derivative): (-C(t+2) + 16C(t+1) - 30C(t) + 16C(t-1) - C(t-2))/12 on 2 ≤ t ≤ T-3,
+    undefined exactly when one of the five slices is -/
+theorem c15_second_improved (a r : Corr β) (hT : 4 ≤ a.T) (h : a.secondDeriv "improved" = .ok r) :
+    r.T = a.T ∧ ∀ t, t < a.T → r.cell? t =
+      (if 2 ≤ t ∧ t + 2 < a.T then
+        (match a.cell? (t - 2), a.cell? (t - 1), a.cell? t, a.cell? (t + 1), a.cell? (t + 2) with
+         | some m2, some m1, some x, some p1, some p2 => some ((1 / 12 : β) * (-p2 + 16 * p1 - 30 * x + 16 * m1 - m2))
+         | _, _, _, _, _ => none)
+       else none) := by
+  unfold Corr.secondDeriv at h
+  split at h
+  · cases h
+  simp only [] at h
+  obtain ⟨h1, -, h3⟩ := c15_build_ok _ _ _ _ _ _ _ h
+  refine ⟨by omega, fun t ht => ?_⟩
+  rw [h3]
+  by_cases hc : 2 ≤ t ∧ t + 2 < a.T
+  · rw [if_pos hc, if_pos (by omega)]
+    have : 2 + (t - 2) = t := by omega
+    rw [this]
+    cases a.cell? (t - 2) <;> cases a.cell? (t - 1) <;> cases a.cell? t <;> cases a.cell? (t + 1) <;> cases a.cell? (t + 2) <;> rfl
+  · rw [if_neg hc, if_neg (by omega)]
+
+/-- C15 (effective mass, log variant): log(C(t)/C(t+1)) on 0 ≤ t ≤ T-2, undefined when a referenced slice is
+    undefined, C(t+1) vanishes or the ratio is negative -/
+theorem c15_meff_log (a r : Corr β) (root : Nat → β → β) (hT : 1 ≤ a.T) (h : a.mEff "log" root = .ok r) :
+    r.T = a.T ∧ ∀ t, t < a.T → r.cell? t =
+      (if t + 1 < a.T then
+        (match a.cell? t, a.cell? (t + 1) with
+         | some x, some p => if Scalar.isZero p then none else if x / p < 0 then none else some (Transc.log (x / p))
+         | _, _ => none)
+       else none) := by
+  unfold Corr.mEff at h
+  split at h
+  · cases h
+  simp only [] at h
+  simp only [bind, Except.bind] at h
+  split at h
+  · cases h
+  rename_i r0 hr0
+  simp only [pure, Except.pure] at h
+  injection h with h
+  subst h
+  obtain ⟨h1, -, h3⟩ := c15_build_ok _ _ _ _ _ _ _ hr0
+  refine ⟨by simp only [Corr.T, Corr.mapCells, List.length_map] at *; omega, fun t ht => ?_⟩
+  rw [mapCells_cell, h3]
+  by_cases hc : t + 1 < a.T
+  · rw [if_pos hc, if_pos (by omega)]
+    have : 0 + (t - 0) = t := by omega
+    rw [this]
+    cases a.cell? t with
+    | none => rfl
+    | some x =>
+      cases a.cell? (t + 1) with
+      | none => rfl
+      | some p =>
+        show Option.map Transc.log (if Scalar.isZero p = true then none else if x / p < 0 then none else pure (x / p)) = _
+        by_cases hz : Scalar.isZero p = true
+        · simp [hz]
+        · by_cases hn : x / p < 0
+          · simp [hz, hn]
+          · simp [hz, hn, pure]
+  · rw [if_neg hc, if_neg (by omega)]
+    rfl
 
 /-- C15 (plateau by average): the mean of the defined slices of the inclusive range -/
 theorem c15_plateau_avg (a : Corr β) (lo hi : Nat) (x : β) (h : a.plateauAvg lo hi = .ok x) :
